@@ -1317,8 +1317,12 @@ def main():
             rng = W.rng(stream, idx)
             try:
                 res = fn(rng)
-            except Exception:   # noqa
+            except Exception as e_:   # noqa
                 import traceback
+                if isinstance(e_, TypeError) and 'follows default argument' in str(e_):
+                    # generator slip: a dataclass field without default after one with (plain Python refuses the source)
+                    W.count('invalid_generated_sources_skipped')
+                    continue
                 W.violation('harness-error', traceback.format_exc()[-1500:], stream, idx, None)
                 W.count('harness_errors')
                 continue
